@@ -196,13 +196,37 @@ class Select(TypedExpression):
                         f"{self._after_or(default_str)}"
                     )
             else:
-                default_str = self._default_with_comments(indent)
-                before_or = format_inline_comment_suffix(
-                    [item for item in self.default_before if isinstance(item, Comment)]
-                )
-                rebuild_string = (
-                    f"{rebuild_string}{before_or} {self._after_or(default_str)}"
-                )
+                comments = [
+                    item for item in self.default_before if isinstance(item, Comment)
+                ]
+                line_comments = [
+                    index
+                    for index, item in enumerate(comments)
+                    if not isinstance(item, MultilineComment)
+                ]
+                if line_comments:
+                    # A `#` comment ends its line: what follows it, and `or`,
+                    # continue on lines of their own.
+                    cut = line_comments[0] + 1
+                    pad = " " * (indent + 2)
+                    default_str = self._default_with_comments(indent + 2)
+                    rebuild_string += format_inline_comment_suffix(comments[:cut])
+                    comment_str = (
+                        format_trivia(comments[cut:], indent=indent + 2)
+                        if comments[cut:]
+                        else ""
+                    )
+                    if comment_str and not comment_str.endswith("\n"):
+                        comment_str += "\n"
+                    rebuild_string += (
+                        f"\n{comment_str}{pad}{self._after_or(default_str)}"
+                    )
+                else:
+                    default_str = self._default_with_comments(indent)
+                    before_or = format_inline_comment_suffix(comments)
+                    rebuild_string = (
+                        f"{rebuild_string}{before_or} {self._after_or(default_str)}"
+                    )
         return self.add_trivia(rebuild_string, indent, inline)
 
     @staticmethod
